@@ -26,7 +26,7 @@ func init() {
 	simkit.Register(&simkit.Prop{
 		ID:             "C16",
 		Desc:           "only correctly signed transactions paid by a signer are accepted",
-		Rule:           "a run = 8..40 client transactions (1..3 signature sets, single keys of every scheme incl. Ethereum-type, m-of-n groups, canonical and hand-assembled scripts) each altered in flight by a tape-chosen fault: none / one byte anywhere / a byte inside a signature / the payer / a signature set spliced in from another transaction / set duplicated / set dropped / m lowered in the script / a key listed twice with two signatures of the same signer / m signatures by fewer than m distinct members (a member signs twice, adjacent or not). The unaltered accepted transactions are then put into a real txnpool/common.TXPool and a faulty proposer's block carries, for each, the same unsigned body (same hash) with another signature section (garbage signature / an extra never-signing account's script with an arbitrary signature / a set dropped / signatures over another hash): TXPool.GetUnverifiedTxs decides which go to the validator, the rest count as verified; the same oracle applies to every transaction the block verification accepts. A third of the transactions reach the validator after the tx pool's sender-limit check (GetSignatureAddresses on the same object, as for the transactions of a proposed block). The node's intake (TransactionFromRawBytes + validation.VerifyTransaction) must accept only if an independent verifier accepts: every set has >= m DISTINCT listed keys with a valid signature over the transaction hash and the payer is an account of one of the sets. non-trivial = >= 1 altered transaction accepted-or-rejected with the oracle evaluated and >= 1 unaltered accepted; distinct = distinct event-trace hash",
+		Rule:           "a run = 8..40 client transactions (1..3 signature sets, single keys of every scheme incl. Ethereum-type, m-of-n groups, canonical and hand-assembled scripts) each altered in flight by a tape-chosen fault: none / one byte anywhere / a byte inside a signature / a signature cut to 0..63 bytes / the payer / a signature set spliced in from another transaction / set duplicated / set dropped / m lowered in the script / a key listed twice with two signatures of the same signer / m signatures by fewer than m distinct members (a member signs twice, adjacent or not). The unaltered accepted transactions are then put into a real txnpool/common.TXPool and a faulty proposer's block carries, for each, the same unsigned body (same hash) with another signature section (garbage signature / an extra never-signing account's script with an arbitrary signature / a set dropped / signatures over another hash): TXPool.GetUnverifiedTxs decides which go to the validator, the rest count as verified; the same oracle applies to every transaction the block verification accepts. A third of the transactions reach the validator after the tx pool's sender-limit check (GetSignatureAddresses on the same object, as for the transactions of a proposed block). The node's intake (TransactionFromRawBytes + validation.VerifyTransaction) must accept only if an independent verifier accepts: every set has >= m DISTINCT listed keys with a valid signature over the transaction hash and the payer is an account of one of the sets. non-trivial = >= 1 altered transaction accepted-or-rejected with the oracle evaluated and >= 1 unaltered accepted; distinct = distinct event-trace hash",
 		Real:           []string{"core/types transaction decoding", "core/validation.VerifyTransaction", "core/program script parsing", "core/signature, ontology-crypto"},
 		Stub:           []string{"client and corrupting link (harness)", "independent verifier (harness; uses the repo's script PARSER for structure, its own distinct-key counting and ontology-crypto for signatures)"},
 		Assumptions:    []string{"the direction checked is 'accepted only if' (soundness); an honest transaction being rejected is only counted (probe)", "script structure is taken from core/program.GetProgramInfo (trusted for structure, not for counting)"},
@@ -221,6 +221,23 @@ func runC16(c *simkit.Ctx) {
 			case 1:
 				raw[t.Choose(len(raw))] ^= byte(1 + t.Choose(255))
 			case 2:
+				if t.Prob(1, 3) {
+					// a signature cut short (0..63 bytes) in one of the sets, script rebuilt around it
+					k := t.Choose(len(sets))
+					if info, err := (&types.RawSig{Invoke: sets[k].invoke, Verify: sets[k].verify}).GetSig(); err == nil && len(info.SigData) > 0 {
+						sigs := append([][]byte{}, info.SigData...)
+						j := t.Choose(len(sigs))
+						cut := t.Choose(len(sigs[j]))
+						if cut > 63 {
+							cut = t.Choose(64)
+						}
+						sigs[j] = sigs[j][:cut]
+						sets[k] = clSigSet{invoke: programFromSigs(sigs), verify: sets[k].verify}
+						raw = clAssemble(c, mt, sets)
+						name = "truncated-signature"
+						break
+					}
+				}
 				if st := sigSectionStart(raw); st >= 0 && st < len(raw)-4 {
 					raw[st+1+t.Choose(len(raw)-st-1)] ^= byte(1 + t.Choose(255))
 				}
